@@ -157,7 +157,9 @@ func c18(r *Report) {
 					muts = append(muts, x)
 				}
 			case *ssa.MapUpdate:
-				if strings.Contains(x.Map.Type().String(), "urlShape") {
+				// (filling a map made in this call, which the listener does not see until it
+				// is installed, changes no listener state)
+				if _, local := x.Map.(*ssa.MakeMap); !local && strings.Contains(x.Map.Type().String(), "urlShape") {
 					muts = append(muts, x)
 				}
 			}
@@ -1061,6 +1063,43 @@ func c18(r *Report) {
 					}
 				}
 			}
+			// the advance may reach b = b[n:] through the result of an (inlined) helper: a merge of
+			// the amount written, 0 (nothing to write) and the count a failed write reported
+			sameAmount := func(adv, wr ssa.Value) bool {
+				if adv == wr {
+					return true
+				}
+				var leaves []ssa.Value
+				if a, isA := adv.(*ssa.Alloc); isA {
+					for _, st := range storesTo(a) {
+						leaves = append(leaves, resolveAll(st.Val)...)
+					}
+				} else {
+					leaves = resolveAll(adv)
+				}
+				if len(leaves) == 0 {
+					return false
+				}
+				matched := false
+				for _, l := range leaves {
+					switch {
+					case l == wr || amountKey(l) == wr:
+						matched = true
+					case func() bool { k, isK := constInt(l); return isK && k == 0 }():
+					case func() bool {
+						ex, isEx := unwrapConv(l).(*ssa.Extract)
+						if !isEx || ex.Index != 0 {
+							return false
+						}
+						c, isC := ex.Tuple.(*ssa.Call)
+						return isC && c.Call.IsInvoke() && c.Call.Method.Name() == "Write"
+					}():
+					default:
+						return false
+					}
+				}
+				return matched
+			}
 			if len(written) == 0 || len(advanced) == 0 {
 				r.Undecided(fmt.Sprintf("(*M/trafficshape.%s): connection writes and buffer advances", name), fmt.Sprintf("UNRESOLVED: found %d conn.Write(b[:n]) and %d b = b[n:]", len(written), len(advanced)))
 				continue
@@ -1068,7 +1107,7 @@ func c18(r *Report) {
 			for i, wv := range written {
 				ok := false
 				for _, av := range advanced {
-					if av.key == wv.key {
+					if sameAmount(av.key, wv.key) {
 						ok = true
 					}
 				}
@@ -1087,7 +1126,7 @@ func c18(r *Report) {
 			for i, av := range advanced {
 				ok := false
 				for _, wv := range written {
-					if av.key == wv.key {
+					if sameAmount(av.key, wv.key) {
 						ok = true
 					}
 				}
@@ -1155,7 +1194,9 @@ func c18(r *Report) {
 					}
 					_, deleg := isCall(i, "(*M/trafficshape.Conn).WriteDefaultBuckets")
 					return deleg && mn == "Write"
-				}, func(i ssa.Instruction) bool { return isIO(i) && !(mn == "Write" && func() bool { _, d := isCall(i, "(*M/trafficshape.Conn).WriteDefaultBuckets"); return d }()) })
+				}, func(i ssa.Instruction) bool {
+					return isIO(i) && !(mn == "Write" && func() bool { _, d := isCall(i, "(*M/trafficshape.Conn).WriteDefaultBuckets"); return d }())
+				})
 				r.Decide("path", "(*M/trafficshape.Conn)."+mn+": the latency is slept before the first I/O", p == nil, "Once.Do(sleepLatency) lies on every path from the entry to the first throttled read / write", "a path reaches the connection's I/O without the configured latency having been slept: the latency adds no delay on that path", m.Pos())
 			}
 			if n < 4 {
@@ -1208,7 +1249,7 @@ func c18(r *Report) {
 						}
 					}
 				}
-				r.Decide("path", "M/trafficshape."+fname+": the look-up runs for a list of one or two entries", okOne && n > 0, "the emptiness guard admits lengths 1 and 2", "the guard in front of the look-up excludes a list of exactly one (or two) entries: a shape with a single close action or a single throttle never acts", lf.Pos())
+				r.Decide("path", "M/trafficshape."+fname+": the look-up runs for a list of one or two entries", okOne, fmt.Sprintf("%d comparisons of the list length with a constant guard the look-up; all admit lengths 1 and 2", n), "the guard in front of the look-up excludes a list of exactly one (or two) entries: a shape with a single close action or a single throttle never acts", lf.Pos())
 			}
 			// a shape applies only to connections established after it was installed
 			if cv := w.method(ct, "CheckExistenceAndValidity"); cv != nil && cv.Blocks != nil {
